@@ -143,7 +143,7 @@ class WeightedInterpolator(NNBase):
         normalized_pts = (prediction_points - self._tpm) / self._tpr
 
         if self._pt_cache is not None and \
-                np.allclose(self._pt_cache[0], normalized_pts):
+                np.array_equal(self._pt_cache[0], normalized_pts):
             ndist, nloc = self._pt_cache[1:]
         else:
             ndist, nloc = self._KData.query(normalized_pts, num_neighbors)
